@@ -5,6 +5,7 @@ import (
 	"fmt"
 	"reflect"
 	"regexp"
+	"sync"
 
 	"github.com/graphql-go/graphql/language/ast"
 )
@@ -926,6 +927,9 @@ type Enum struct {
 	values       []*EnumValueDefinition
 	valuesLookup map[interface{}]*EnumValueDefinition
 	nameLookup   map[string]*EnumValueDefinition
+	// lookupMu guards the two lazily built tables above: the first Serialize /
+	// ParseValue / ParseLiteral may happen on several goroutines at once.
+	lookupMu sync.Mutex
 
 	err error
 }
@@ -1051,6 +1055,8 @@ func (gt *Enum) Error() error {
 	return gt.err
 }
 func (gt *Enum) getValueLookup() map[interface{}]*EnumValueDefinition {
+	gt.lookupMu.Lock()
+	defer gt.lookupMu.Unlock()
 	if len(gt.valuesLookup) > 0 {
 		return gt.valuesLookup
 	}
@@ -1063,6 +1069,8 @@ func (gt *Enum) getValueLookup() map[interface{}]*EnumValueDefinition {
 }
 
 func (gt *Enum) getNameLookup() map[string]*EnumValueDefinition {
+	gt.lookupMu.Lock()
+	defer gt.lookupMu.Unlock()
 	if len(gt.nameLookup) > 0 {
 		return gt.nameLookup
 	}
